@@ -46,6 +46,8 @@ type Compiler struct {
 	currModule      string
 	// The index / member expression compiled next is the target of an assignment: its cell is needed, not its value.
 	asPlace bool
+	// Whether the function being compiled hands a value to its caller (its result type is not `null`).
+	fnReturnsValue bool
 	// Number of function literals compiled so far, per module (part of their names, which a program can print).
 	lambdaCount map[string]uint
 	// Root scope (globals, singletons and imported globals) of every module.
